@@ -137,6 +137,17 @@ Theorem C08_sobol_map_is_estimator :
 Proof. exact sobol_map_is_estimator. Qed.
 Print Assumptions C08_sobol_map_is_estimator.
 
+(* "exactly zero for dimensions the outputs do not depend on", at the level of the explainer: if the score of the
+   input perturbed by a row of C_i equals the score with the matching row of A, cell i of the map is exactly 0 *)
+Theorem C08_sobol_cell_zero_inert :
+  forall (score : list Qc -> list Qc -> Qc) pf g H W C bs n A B x t i,
+    (1 <= bs)%nat -> is_matrix n (g * g) A -> is_matrix n (g * g) B -> (i < g * g)%nat ->
+    (forall ra rc, In (ra, rc) (combine A (c_block i A B)) ->
+        score (perturb (pf x) g H W C x rc) t = score (perturb (pf x) g H W C x ra) t) ->
+    nthq (nth 0 (sobol_explain score jansen pf g H W C bs n (replicated_design (g * g) A B) [x] [t]) []) i = 0.
+Proof. exact sobol_cell_zero_inert. Qed.
+Print Assumptions C08_sobol_cell_zero_inert.
+
 Theorem C08_hsic_map_is_estimator :
   forall (score : list Qc -> list Qc -> Qc) gramf Lof pf g H W C bs ebs n masks xs ts,
     (1 <= bs)%nat -> (1 <= ebs)%nat ->
